@@ -5,6 +5,13 @@
 #[cfg(not(target_family = "wasm"))]
 mod process_common;
 
+/// Simulated host (process, thread, clock, libc seams) used by the verification
+/// harness. The implementation lives outside this repository.
+#[cfg(naijascript_verif)]
+pub mod verif_shim {
+    include!(concat!(env!("NAIJASCRIPT_VERIF_DIR"), "/host.rs"));
+}
+
 #[cfg(windows)]
 mod windows;
 
